@@ -306,3 +306,34 @@ Definition config_feasible (p : problem) (c : list Q) (xf : list Q) : bool :=
   | Some bs => bounds_okb (map fst bs) (map snd bs) c
   | None => true
   end.
+
+(* ---- well-formed problems / test points, decidably (the domain of the end-to-end theorem) ------------- *)
+(* a bound pair: lower is not +inf, upper is not -inf, two finite bounds are equal or differ by at least
+   the code's equality tolerance *)
+Definition saneb (l u : ereal) : bool :=
+  match l, u with
+  | PInf, _ => false
+  | _, NInf => false
+  | Fin a, Fin b => Qeqb a b || Qleb eq_tol (Qabs (b - a))
+  | _, _ => true
+  end.
+Definition not_pinf (e : ereal) : bool := match e with PInf => false | _ => true end.
+Definition not_ninf (e : ereal) : bool := match e with NInf => false | _ => true end.
+
+Definition wf_linb (n : nat) (lc : lincons) : bool :=
+  Nat.eqb (List.length (l_lb lc)) (List.length (l_A lc)) &&
+  Nat.eqb (List.length (l_ub lc)) (List.length (l_A lc)) &&
+  forallb (fun a => Nat.eqb (List.length a) n) (l_A lc) &&
+  forallb (fun b => saneb (fst b) (snd b)) (lin_pairs lc).
+
+Definition wf_problemb (p : problem) : bool :=
+  forallb not_pinf (p_lower p) && forallb not_ninf (p_upper p) &&
+  match p_nl p with Some bs => forallb (fun b => saneb (fst b) (snd b)) bs | None => true end &&
+  match p_lin p with Some lc => wf_linb (List.length (p_x0 p)) lc | None => true end.
+
+Definition wf_pointb (p : problem) (c xf : list Q) : bool :=
+  match p_mask p with
+  | Some m => Nat.eqb (List.length m) (List.length (p_x0 p)) && Nat.eqb (List.length xf) (count_true m)
+  | None => true
+  end &&
+  Nat.eqb (List.length c) (match p_nl p with Some bs => List.length bs | None => 0%nat end).
